@@ -246,7 +246,61 @@ def native_stage(chk):
         p = chk.replay_path("native")
         json.dump({"property": PID, "obligation": "native hextb vs hexsim", "real_code_result": r}, open(p, "w"), indent=1)
         chk.add_violation("native-lockstep", p, r.get("why", ""), True)
+    cli_stage(chk, exe)
     return exe
+
+
+def cli_stage(chk, exe):
+    """the two EXECUTABLES' entry points: hexsim.cpp's main (built as a program) and hextb.cpp's own main() (called in a child
+    process of the native harness, which links hextb.cpp with main renamed): stdout after the banner and process status"""
+    import subprocess
+    import c02
+    hexsim = os.path.join(chk.out, "hexsim_cli")
+    hv.build_native(os.path.join(hv.REPO, "hexsim.cpp"), hexsim, extra=[os.path.join(hv.REPO, "hex.cpp")], opt="-O1", hooks=False)
+    E = c02._enc
+    d = os.path.join(chk.out, "scratch", "cli")
+    os.makedirs(d, exist_ok=True)
+    def image(name, code):
+        img = bytes([0x97, 0, 0, 0]) + (1000).to_bytes(4, "little") + code
+        img += b"\0" * (-len(img) % 4)
+        open(os.path.join(d, name), "wb").write((len(img) // 4).to_bytes(4, "little") + img)
+    echo = b"".join([E("LDBM", 1), E("LDAC", 0), E("STAI", 2), E("LDAC", 2), E("OPR", 3),                                   # read stdin
+                     E("LDAM", 1), E("LDAI", 1), E("LDBM", 1), E("STAI", 2), E("LDAC", 0), E("STAI", 3), E("LDAC", 1), E("OPR", 3)])  # echo
+    progs = {
+        "echo7.bin": (echo + b"".join([E("LDBM", 1), E("LDAC", 7), E("STAI", 2), E("LDAC", 0), E("OPR", 3)]), b"Q"),
+        "exitm2.bin": (b"".join([E("LDBM", 1), bytes([0xFF, 0x3E]), E("STAI", 2), E("LDAC", 0), E("OPR", 3)]), b""),          # exit(-2)
+        "exit256.bin": (b"".join([E("LDBM", 1), E("LDAC", 256), E("STAI", 2), E("LDAC", 0), E("OPR", 3)]), b""),               # exit(256)
+        "echoeof.bin": (echo + b"".join([E("LDBM", 1), E("LDAC", 0), E("STAI", 2), E("LDAC", 0), E("OPR", 3)]), b""),           # echo at end of input
+    }
+    why = ""
+    n = 0
+    for name, (code, inp) in progs.items():
+        image(name, code)
+        open(os.path.join(d, "in.dat"), "wb").write(inp)
+        try:
+            r = subprocess.run([hexsim, name], cwd=d, input=inp, capture_output=True, timeout=60)
+        except subprocess.TimeoutExpired:
+            raise hv.Infra("hexsim executable timed out on " + name)
+        rc, o, e, _ = hv.run([exe, "cli", name, "in.dat", "tb.out", "5"], cwd=d, timeout=300)
+        try:
+            tb = json.loads(o.strip().splitlines()[-1])
+        except Exception:
+            raise hv.Infra("hextb main() child failed: " + (o + e)[-400:])
+        out = open(os.path.join(d, "tb.out"), "rb").read()
+        nl = out.find(b"\n")
+        out = out[nl + 1:] if nl >= 0 else out
+        n += 1
+        if not tb.get("exited") or tb["status"] != (r.returncode & 0xFF):
+            why = "%s: process status %s (hexsim) vs %s (hextb)" % (name, r.returncode, tb.get("status"))
+        elif out != r.stdout:
+            why = "%s: standard output after the banner %r (hextb) vs %r (hexsim)" % (name, out, r.stdout)
+        if why:
+            break
+    chk.native.append({"stage": "hexsim executable vs hextb.cpp's own main() in a child process: status and standard output after the banner", "programs": n, "ok": not why, "why": why})
+    if why:
+        p = chk.replay_path("native-cli")
+        json.dump({"property": PID, "obligation": "hexsim and hextb entry points", "what": why, "how": "programs and outputs in " + d}, open(p, "w"), indent=1)
+        chk.add_violation("native-cli", p, why, True)
 
 
 def native_only(chk):
